@@ -56,6 +56,16 @@ def c_abs(z):
     return np.abs(z)
 
 
+def _clog1p(w):
+    """Return log(1 + w) for complex w, accurate for small abs(w).
+
+    numpy's complex log1p computes log(hypot(1 + w.real, w.imag)), which loses the relative accuracy of the
+    real part for small w.
+    """
+    a, b = np.real(w), np.imag(w)
+    return 0.5 * np.log1p(a * (2 + a) + b * b) + 1j * np.arctan2(b, 1 + a)
+
+
 class Bicomplex(object):
 
     """
@@ -338,7 +348,7 @@ class Bicomplex(object):
     def log1p(self):
         # log(1 + z) = log(mod_c(1 + z)) + j * arg_c(1 + z),  mod_c(1 + z)**2 = 1 + z1*(2 + z1) + z2**2
         z1, z2 = self.z1, self.z2
-        return Bicomplex(0.5 * np.log1p(z1 * (2 + z1) + z2 * z2), self.arg_c1p())
+        return Bicomplex(0.5 * _clog1p(z1 * (2 + z1) + z2 * z2), self.arg_c1p())
 
     def expm1(self):
         # exp(z) - 1 = expm1(z1)*cos(z2) + (cos(z2) - 1) + j * exp(z1)*sin(z2)
@@ -387,10 +397,13 @@ class Bicomplex(object):
         # where the sum does not cancel
         sign = np.where(np.real(self.z1) < 0, -1.0, 1.0)
         w = self * sign
-        return (w + (w ** 2 + 1) ** 0.5).log() * sign
+        w_2 = w * w
+        # w + sqrt(w**2 + 1) = 1 + (w + w**2 / (1 + sqrt(w**2 + 1))): log1p keeps the relative accuracy for small w
+        return (w + w_2 / (1 + (w_2 + 1) ** 0.5)).log1p() * sign
 
     def arctanh(self):
-        return 0.5 * (((1 + self) / (1 - self)).log())
+        # (1 + z) / (1 - z) = 1 + 2 z / (1 - z): log1p keeps the relative accuracy for small z
+        return 0.5 * ((2 * self / (1 - self)).log1p())
 
     @staticmethod
     def _arg_c(z1, z2):
